@@ -1001,6 +1001,18 @@ def c29(tier):
 def _pair_eval(arg):
     name, da, db = arg
     out = {"name": name}
+    if name.endswith("@after-combinators"):
+        # the same equivalence, evaluated in a process in which other combinators over constrained blocks were built first (the way a script
+        # that defines several designs behaves): the documented equivalences are about the constructors' arguments, not about what was built before
+        try:
+            import sweetpea as sp
+            p_, q_ = sp.Factor("c", ["r", "g"]), sp.Factor("d", ["x", "y"])
+            b1 = sp.CrossBlock([p_, q_], [p_], [sp.AtMostKInARow(1, (q_, "x")), sp.MinimumTrials(4)])
+            sp.Merge([b1])
+            sp.Nest(sp.CrossBlock([p_], [p_], [sp.MinimumTrials(2)]), sp.CrossBlock([q_], [q_], []))
+            sp.Repeat(b1, [sp.MinimumTrials(8)])
+        except Exception as e:
+            out["warmup_exception"] = [type(e).__name__, str(e)[:200]]
     for tag, d in (("a", da), ("b", db)):
         try:
             block, _ = model.build(d)
@@ -1041,6 +1053,10 @@ def equivalence_pairs(tier, sd):
             pairs.append((f"merge_single_id:{d['name']}", d, mk(DS.merge([blk]))))
             m = DS.multi(blk["design"], [blk["crossing"]], blk["constraints"], blk.get("rcc", True), mode="weight")
             pairs.append((f"cross_eq_multicross_weight:{d['name']}", d, mk(m)))
+    # a few of the pairs again in a process that built other combinators first
+    for nm_, da_, db_ in [p_ for p_ in pairs if p_[0].split(":")[1] in ("cross-2x2", "atmost1-uncrossed", "cross-2+uncrossed", "min-4-of-2", "exactlyk2-uncrossed")
+                          and p_[0].split(":")[0] in ("merge_single_id", "repeat_empty_id")]:
+        pairs.append((nm_ + "@after-combinators", da_, db_))
     # multi-crossing designs with every mode and alignment
     c2, d2, f3 = DS.fac("c", DS.A2), DS.fac("d", ["x", "y"]), DS.fac("f", ["p", "q", "s"])
     tr = DS.transition_rep("t", "c", DS.A2)
